@@ -453,7 +453,12 @@ def hostile_cases(draw, only=None):
             f"RECURRENCE-ID;TZID={zone}:{edge_dt.rstrip('Z')}", f"DTEND;TZID={zone}:{edge_dt.rstrip('Z')}", f"DUE:{edge_dt}", f"TRIGGER;VALUE=DATE-TIME:{edge_dt}",
             f"RRULE:FREQ=YEARLY;UNTIL={edge_dt}", "RRULE:FREQ=DAILY;COUNT=99999999999999999999", "RRULE:FREQ=DAILY;INTERVAL=99999999999999999999", "SEQUENCE:99999999999999999999999999",
             "PRIORITY:-99999999999999999999", "GEO:1e400;-1e400", "GEO:nan;inf", "PERCENT-COMPLETE:1e3", "TZOFFSETFROM:+9959", "TZOFFSETTO:-995959", "X-A;VALUE=FLOAT:1e999",
-            "X-B;VALUE=UTC-OFFSET:+2360", "X-C;VALUE=DURATION:" + dur, "X-D;VALUE=PERIOD:" + edge_dt + "/" + dur, "X-E;VALUE=DATE-TIME:" + edge_dt, "X-F;VALUE=TIME:240000", "X-G;VALUE=TIME:235960Z"]), max_size=4))
+            "X-B;VALUE=UTC-OFFSET:+2360", "X-C;VALUE=DURATION:" + dur, "X-D;VALUE=PERIOD:" + edge_dt + "/" + dur, "X-E;VALUE=DATE-TIME:" + edge_dt, "X-F;VALUE=TIME:240000", "X-G;VALUE=TIME:235960Z",
+            # values of one date/time type where another is usual: the combined decoder accepts them, every consumer must cope
+            "RRULE:FREQ=DAILY;UNTIL=120000Z", "RRULE:FREQ=DAILY;UNTIL=120000", "RRULE:FREQ=DAILY;UNTIL=P1D", "RRULE:FREQ=DAILY;UNTIL=20200101T000000Z/PT1H",
+            "DTSTART:120000Z", "DTEND:120000", "EXDATE:120000Z", "RDATE:120000Z,20200101", "DUE:PT1H", "RECURRENCE-ID:-P1D", "TRIGGER:120000Z", "TRIGGER:20200101",
+            "DTSTAMP:20200101", "COMPLETED:120000Z", "CREATED:PT0S", "LAST-MODIFIED:20200101T000000/PT1H", "ACKNOWLEDGED:120000Z", "DURATION:20200101T000000Z",
+            "FREEBUSY:PT1H", "REPEAT:-1", "TZOFFSETTO:+0000", "DTSTART;VALUE=PERIOD:20200101T000000Z/PT1H", "DTSTART;VALUE=DURATION:PT1H", "DTEND;VALUE=TIME:120000"]), max_size=4))
         comp = draw(st.sampled_from(["VEVENT", "VTODO", "VJOURNAL", "VFREEBUSY"]))
         lines = ["BEGIN:VCALENDAR", f"BEGIN:{comp}"] + body + extra + (alarm if comp in ("VEVENT", "VTODO") else []) + [f"END:{comp}", "END:VCALENDAR"]
         return {"gen": "hostile", "what": "extreme", "lines": lines}
